@@ -1140,7 +1140,9 @@ func (db *DB) Repair(of Object) (err error) {
 			continue
 		}
 
-		if o, err = db.getByUUID(of, uuid); err != nil {
+		// a new object is needed for every file: unmarshaling several
+		// files into the same object would merge their maps
+		if o, err = db.getByUUID(newIterator(db, of, nil).object(), uuid); err != nil {
 			return
 		}
 
